@@ -231,7 +231,7 @@ struct Case {
     committed: [bool; 2],
     lines: Vec<String>,
     /// (key, time) of RESTOREs waiting at a gate when a deleting command ran directly at dst after the commit
-    f03b_window: bool,
+    f03b_window: std::collections::BTreeSet<String>,
     pull_delete: bool,
 }
 
@@ -272,7 +272,7 @@ impl Case {
         let mut c = Case {
             world, s, d, cfg: cfg.clone(), clock: 0, ops: vec![],
             st: ["PRE_CHECK".to_string(), "PRE_CHECK".to_string()],
-            committed: [false, false], lines: vec![], f03b_window: false, pull_delete: false,
+            committed: [false, false], lines: vec![], f03b_window: Default::default(), pull_delete: false,
         };
         // the coordinator sets the destination first
         let rd = submit(&c.d, setcluster_words(false, false, cfg.scan).iter().map(|w| w.as_bytes().to_vec()).collect(), 1).await;
@@ -374,7 +374,7 @@ impl Case {
                         if w.conns.iter().any(|c| c.pending.iter().any(|q| {
                             q.args.first().map(|a| a.eq_ignore_ascii_case(b"RESTORE")).unwrap_or(false) && q.args.get(1) == Some(&key)
                         })) {
-                            self.f03b_window = true;
+                            self.f03b_window.insert(String::from_utf8_lossy(&key).to_string());
                         }
                     }
                     let reply = self.world.lock().expect("world").redis_exec(n, &p.args);
@@ -512,7 +512,7 @@ fn check_case(c: &Case, complete: bool, st: &mut Stats, case_no: u64) {
             None
         };
         let has_pull_delete = c.ops.iter().any(|o| &o.key == k && matches!(o.cmd, HCmd::DelStore));
-        let finding = if has_pull_delete { "F03a" } else if c.f03b_window { "F03b" } else { "" };
+        let finding = if has_pull_delete { "F03a" } else if c.f03b_window.contains(k) { "F03b" } else { "" };
         if !linearizable(&ops, &init_of(k), fin.as_ref()) {
             st.count("oracle.not_linearizable");
             st.oracle_failure(case_no, &format!("key {}: acknowledged history is not a linearizable register{}", k,
@@ -719,6 +719,32 @@ async fn run_replay(lines: &[String], s: &mut Streams) {
                 Some("exe") if w.len() >= 2 => Some(Action::Exe { conn: w[1].to_string() }),
                 Some("commit") if w.len() >= 2 => Some(Action::Commit { proxy: w[1].chars().next().unwrap_or('S') }),
                 Some("tick") => Some(Action::Tick),
+                Some("drain") => {
+                    // run a fixed fair schedule to the end: lowest-labelled pending connection first
+                    for _ in 0..400 {
+                        let mut pend = c.pending_conns();
+                        pend.sort();
+                        let s_ready = c.st[0] == "SWITCH_COMMITTED" || c.committed[0];
+                        let d_ready = c.st[1] == "SWITCH_COMMITTED" || c.committed[1];
+                        let a = if let Some(p) = pend.first() {
+                            Action::Exe { conn: p.clone() }
+                        } else if s_ready && d_ready && !c.committed[1] {
+                            Action::Commit { proxy: 'D' }
+                        } else if s_ready && d_ready && !c.committed[0] {
+                            Action::Commit { proxy: 'S' }
+                        } else if c.ops.iter().any(|o| o.ret.is_none()) {
+                            Action::Tick
+                        } else {
+                            break;
+                        };
+                        c.act(&a).await;
+                        for l in c.lines.drain(..) {
+                            s.op(&l, "ok");
+                        }
+                    }
+                    complete = c.committed[0] && c.committed[1];
+                    None
+                }
                 Some("fin") => { complete = c.committed[0] && c.committed[1]; None }
                 _ => None,
             };
